@@ -43,7 +43,7 @@ BUILTIN_EXC = {
 
 
 class St:
-    __slots__ = ('frames', 'pc', 'heap', 'ghost', 'exc_stack', 'depth', 'trace')
+    __slots__ = ('frames', 'pc', 'heap', 'ghost', 'exc_stack', 'depth', 'trace', 'ndef')
 
     def __init__(self):
         self.frames = [{}]
@@ -53,6 +53,7 @@ class St:
         self.exc_stack = []
         self.depth = 0
         self.trace = []
+        self.ndef = 0
 
     def fork(self):
         s = St.__new__(St)
@@ -63,6 +64,7 @@ class St:
         s.exc_stack = list(self.exc_stack)
         s.depth = self.depth
         s.trace = list(self.trace)
+        s.ndef = self.ndef
         return s
 
     @property
@@ -80,6 +82,7 @@ class St:
                 return
             f = z3.BoolVal(False)
         self.pc.append(f)
+        self.ndef += 1
 
 
 class Obligation:
@@ -426,6 +429,11 @@ class Interp:
         """-> z3 Bool / python bool (no forking, no user __len__/__bool__ for plain values)"""
         if isinstance(v, SBool):
             return v.e
+        if isinstance(v, SIte):
+            ta, tb = self.truth(st, v.a), self.truth(st, v.b)
+            ta = z3.BoolVal(ta) if isinstance(ta, bool) else ta
+            tb = z3.BoolVal(tb) if isinstance(tb, bool) else tb
+            return z3.If(v.c, ta, tb)
         if isinstance(v, SInt):
             return v.e != 0
         if isinstance(v, SStr):
@@ -461,6 +469,12 @@ class Interp:
 
     def values_eq(self, st, a, b):
         """z3 Bool / python bool for a == b (structural; no user __eq__)"""
+        if isinstance(a, SIte):
+            x, y = self.values_eq(st, a.a, b), self.values_eq(st, a.b, b)
+            return z3.If(a.c, self._zb(x), self._zb(y))
+        if isinstance(b, SIte):
+            x, y = self.values_eq(st, a, b.a), self.values_eq(st, a, b.b)
+            return z3.If(b.c, self._zb(x), self._zb(y))
         if isinstance(a, SNone) or isinstance(b, SNone):
             return isinstance(a, SNone) and isinstance(b, SNone)
         if isinstance(a, (SInt, SBool)) and isinstance(b, (SInt, SBool)):
@@ -507,6 +521,70 @@ class Interp:
                 if isinstance(o, (HList, HSeq, HDict)):
                     return False
         raise EngineLimit('equality of %r and %r' % (a, b))
+
+    def _zb(self, x):
+        return z3.BoolVal(x) if isinstance(x, bool) else x
+
+    def force(self, st, v):
+        """split the path on a lazy choice value"""
+        if isinstance(v, SIte):
+            for st1, b in self.split(st, v.c):
+                yield from self.force(st1, v.a if b else v.b)
+        else:
+            yield st, v
+
+    def merge_values(self, st, c, a, b):
+        """value that is `a` when c else `b`"""
+        if a is b:
+            return a
+        if isinstance(a, SBool) and isinstance(b, SBool):
+            return SBool(z3.If(c, a.e, b.e))
+        if isinstance(a, SInt) and isinstance(b, SInt):
+            return SInt(z3.If(c, a.e, b.e))
+        if isinstance(a, SNone) and isinstance(b, SNone):
+            return a
+        if isinstance(a, SStr) and isinstance(b, SStr):
+            if a.is_vec() and b.is_vec() and len(a.chars) == len(b.chars):
+                return SStr(chars=[x if x.eq(y) else z3.If(c, x, y) for x, y in zip(a.chars, b.chars)])
+            return SStr(expr=z3.If(c, a.z(), b.z()))
+        if isinstance(a, STuple) and isinstance(b, STuple) and len(a.items) == len(b.items):
+            return STuple([self.merge_values(st, c, x, y) for x, y in zip(a.items, b.items)])
+        if isinstance(a, Ref) and isinstance(b, Ref) and a.addr == b.addr:
+            return a
+        if isinstance(a, SOpaque) and isinstance(b, SOpaque) and a.tname == b.tname:
+            return SOpaque(z3.If(c, a.e, b.e), a.tname)
+        return SIte(c, a, b)
+
+    def pure_eval(self, node, st, cond=None):
+        """evaluate `node` under st (+cond) if that is single-path, raises nothing and has no
+        effect on the state; -> value or None"""
+        s0 = st.fork()
+        if cond is not None:
+            s0.pc.append(cond)
+        n0 = len(s0.pc)
+        nd0 = s0.ndef
+        heap0 = dict(s0.heap)
+        env0 = dict(s0.env)
+        gen = self.ev(node, s0)
+        try:
+            st1, v = next(gen)
+        except StopIteration:
+            return None
+        second = next(gen, None)
+        if second is not None:
+            return None
+        if isinstance(v, Raise) or len(st1.pc) != n0 or st1.ndef != nd0:
+            return None
+        if len(st1.env) != len(env0) or any(st1.env.get(k) is not x for k, x in env0.items()):
+            return None
+        for k, o in st1.heap.items():
+            if k in heap0 and heap0[k] is not o:
+                return None
+        # objects allocated by the expression stay valid in the caller's heap
+        for k, o in st1.heap.items():
+            if k not in st.heap:
+                st.heap[k] = o
+        return v
 
     def _and(self, xs):
         out = []
@@ -632,6 +710,15 @@ class Interp:
             if isinstance(c, Raise):
                 yield st1, c
                 continue
+            t = self.truth(st1, c)
+            if not isinstance(t, bool):
+                t = z3.simplify(t)
+                if not (z3.is_true(t) or z3.is_false(t)):
+                    va = self.pure_eval(node.body, st1, t)
+                    vb = self.pure_eval(node.orelse, st1, z3.Not(t)) if va is not None else None
+                    if va is not None and vb is not None:
+                        yield st1, self.merge_values(st1, t, va, vb)
+                        continue
             for st2, b in self.branch(st1, c):
                 yield from self.ev(node.body if b else node.orelse, st2)
 
@@ -648,7 +735,16 @@ class Interp:
                 if isinstance(v, Raise) or i == len(node.values) - 1:
                     yield st1, v
                     continue
-                # cheap merge: both sides plain booleans and the rest is side-effect free & single-path
+                # merge when the rest is single-path, total and side-effect free
+                t = self.truth(st1, v)
+                if not isinstance(t, bool):
+                    t = z3.simplify(t)
+                    if not (z3.is_true(t) or z3.is_false(t)):
+                        rest = ast.BoolOp(op=node.op, values=node.values[i + 1:]) if i + 2 < len(node.values) else node.values[i + 1]
+                        vr = self.pure_eval(rest, st1, t if is_and else z3.Not(t))
+                        if vr is not None:
+                            yield st1, (self.merge_values(st1, t, vr, v) if is_and else self.merge_values(st1, t, v, vr))
+                            continue
                 for st2, b in self.branch(st1, v):
                     if is_and:
                         if b:
@@ -693,6 +789,11 @@ class Interp:
             yield from self.binop(node, node.op, vs[0], vs[1], st1)
 
     def binop(self, node, op, a, b, st):
+        if isinstance(a, SIte) or isinstance(b, SIte):
+            for st1, a1 in self.force(st, a):
+                for st2, b1 in self.force(st1, b):
+                    yield from self.binop(node, op, a1, b1, st2)
+            return
         num = (SInt, SBool)
         if isinstance(a, num) and isinstance(b, num):
             x, y = self.as_int(a), self.as_int(b)
@@ -773,6 +874,15 @@ class Interp:
             yield from go(0, left, st0)
 
     def compare(self, node, op, a, b, st):
+        if isinstance(a, SIte) or isinstance(b, SIte):
+            r = self.compare_lazy(node, op, a, b, st)
+            if r is not None:
+                yield st, r
+                return
+            for st1, a1 in self.force(st, a):
+                for st2, b1 in self.force(st1, b):
+                    yield from self.compare(node, op, a1, b1, st2)
+            return
         if isinstance(op, (ast.Eq, ast.NotEq)):
             # user-defined __eq__ on repo objects
             if isinstance(a, Ref) and isinstance(st.heap[a.addr], HObj):
@@ -845,8 +955,41 @@ class Interp:
             return
         raise EngineLimit('compare op')
 
+    def compare_lazy(self, node, op, a, b, st):
+        """comparison distributed over lazy choices; None when an alternative forks or raises"""
+        if isinstance(a, SIte):
+            x = self.compare_lazy(node, op, a.a, b, st)
+            y = self.compare_lazy(node, op, a.b, b, st) if x is not None else None
+            if x is None or y is None:
+                return None
+            return SBool(z3.If(a.c, x.e, y.e))
+        if isinstance(b, SIte):
+            x = self.compare_lazy(node, op, a, b.a, st)
+            y = self.compare_lazy(node, op, a, b.b, st) if x is not None else None
+            if x is None or y is None:
+                return None
+            return SBool(z3.If(b.c, x.e, y.e))
+        s0 = st.fork()
+        n0, nd0 = len(s0.pc), s0.ndef
+        outs = []
+        for o in self.compare(node, op, a, b, s0):
+            outs.append(o)
+            if len(outs) > 1:
+                return None
+        if len(outs) != 1:
+            return None
+        st1, r = outs[0]
+        if isinstance(r, Raise) or len(st1.pc) != n0 or st1.ndef != nd0 or not isinstance(r, SBool):
+            return None
+        return r
+
     def contains(self, node, container, item, st):
         """yields (st, z3 bool | bool | Raise)"""
+        if isinstance(container, SIte) or isinstance(item, SIte):
+            for st1, c1 in self.force(st, container):
+                for st2, i1 in self.force(st1, item):
+                    yield from self.contains(node, c1, i1, st2)
+            return
         if isinstance(container, SStr):
             if not isinstance(item, SStr):
                 yield st, self.exc('TypeError', node)
@@ -927,6 +1070,11 @@ class Interp:
         return j, z3.And(j >= 0, j < nz)
 
     def do_index(self, node, base, idx, st):
+        if isinstance(base, SIte) or isinstance(idx, SIte):
+            for st1, b1 in self.force(st, base):
+                for st2, i1 in self.force(st1, idx):
+                    yield from self.do_index(node, b1, i1, st2)
+            return
         if isinstance(base, SStr):
             if not isinstance(idx, (SInt, SBool)):
                 yield st, self.exc('TypeError', node)
@@ -1027,6 +1175,12 @@ class Interp:
         return j
 
     def do_slice(self, node, base, lo, hi, st):
+        if isinstance(base, SIte) or isinstance(lo, SIte) or isinstance(hi, SIte):
+            for st1, b1 in self.force(st, base):
+                for st2, l1 in self.force(st1, lo):
+                    for st3, h1 in self.force(st2, hi):
+                        yield from self.do_slice(node, b1, l1, h1, st3)
+            return
         if isinstance(base, SStr):
             n = base.length()
             a = self.clamp_bound(lo, n, '0')
@@ -1122,6 +1276,10 @@ class Interp:
         return v
 
     def get_attr(self, node, base, attr, st):
+        if isinstance(base, SIte):
+            for st1, b1 in self.force(st, base):
+                yield from self.get_attr(node, b1, attr, st1)
+            return
         if isinstance(base, SModule):
             if base.name == 'pyx12':
                 sub = self.module('pyx12.' + attr)
@@ -1222,6 +1380,27 @@ class Interp:
                 yield from self.call(node, f, args, kwargs, st2)
 
     def call(self, node, f, args, kwargs, st):
+        lazy = [k for k, a in enumerate(args) if isinstance(a, SIte)]
+        lazyk = [k for k, a in kwargs.items() if isinstance(a, SIte)]
+        if isinstance(f, SIte) or ((lazy or lazyk) and not (isinstance(f, SFunc) and f.kind in ('repo', 'spec', 'method') and
+                                                            not (f.module is not None and f.module.name == 'specs.prim'))):
+            def go(i, args, st):
+                if i == len(args):
+                    def gok(ks, kw, st):
+                        if not ks:
+                            for st9, f1 in self.force(st, f):
+                                yield from self.call(node, f1, args, kw, st9)
+                            return
+                        for st8, v in self.force(st, kw[ks[0]]):
+                            kw2 = dict(kw)
+                            kw2[ks[0]] = v
+                            yield from gok(ks[1:], kw2, st8)
+                    yield from gok(list(kwargs), dict(kwargs), st)
+                    return
+                for st1, v in self.force(st, args[i]):
+                    yield from go(i + 1, args[:i] + [v] + args[i + 1:], st1)
+            yield from go(0, list(args), st)
+            return
         if isinstance(f, SFunc):
             if f.kind == 'builtin':
                 from . import builtins as B
@@ -1278,8 +1457,81 @@ class Interp:
         return 'inline'
 
     cur_func_qual = None
+    merge_specs = True
+    base_pc = ()
     opaque_specs = ()
-    _uf_cache = {}
+
+    def _argkey(self, st, v, depth=0):
+        if isinstance(v, (SInt, SBool)):
+            return ('p', v.e.get_id())
+        if isinstance(v, SStr):
+            return ('s', tuple(c.get_id() for c in v.chars)) if v.is_vec() else ('n', v.expr.get_id())
+        if isinstance(v, SNone):
+            return ('none',)
+        if isinstance(v, SOpaque):
+            return ('o', v.tname, v.e.get_id())
+        if isinstance(v, STuple):
+            return ('t',) + tuple(self._argkey(st, x, depth + 1) for x in v.items)
+        if isinstance(v, SIte):
+            return ('ite', v.c.get_id(), self._argkey(st, v.a, depth + 1), self._argkey(st, v.b, depth + 1))
+        if isinstance(v, Ref) and depth < 4:
+            o = st.heap[v.addr]
+            if isinstance(o, HList):
+                return ('l',) + tuple(self._argkey(st, x, depth + 1) for x in o.items)
+            if isinstance(o, HSeq):
+                return ('q', o.e.get_id())
+        return None
+
+    def _prim_result(self, v):
+        if isinstance(v, (SInt, SBool, SStr, SNone, SOpaque)):
+            return True
+        if isinstance(v, (STuple,)):
+            return all(self._prim_result(x) for x in v.items)
+        if isinstance(v, SIte):
+            return self._prim_result(v.a) and self._prim_result(v.b)
+        return False
+
+    def spec_call_merged(self, f, args, st, node):
+        """pure spec function: evaluate all its paths once (under the function's base
+        path condition only), merge them into one value; cached per argument identity"""
+        keys = tuple(self._argkey(st, a) for a in args)
+        if any(k is None for k in keys):
+            return None
+        ck = (f.name, keys, self.opaque_specs, id(self.base_pc))
+        if not hasattr(self, '_spec_cache'):
+            self._spec_cache = {}
+        ent = self._spec_cache.get(ck)
+        if ent is None:
+            s0 = St()
+            s0.pc = list(self.base_pc)
+            s0.heap = dict(st.heap)
+            s0.ghost = {}
+            s0.frames = [{'__module__': f.module, '__func__': '<spec>', '__locals__': set()}]
+            n0, nd0 = len(s0.pc), s0.ndef
+            outs = []
+            ok = True
+            try:
+                for st1, r in self.call_function(f, list(args), {}, s0, node, _nomerge=True):
+                    if isinstance(r, Raise) or not self._prim_result(r):
+                        ok = False
+                        break
+                    outs.append((st1.pc[n0:], r, st1.ndef != nd0))
+                    if len(outs) > 4096:
+                        ok = False
+                        break
+            except EngineLimit:
+                raise
+            ent = outs if ok and outs else False
+            self._spec_cache[ck] = ent
+        if ent is False:
+            return None
+        if any(d for _, _, d in ent):
+            st.assume(z3.Or([z3.And(delta) if delta else z3.BoolVal(True) for delta, _, _ in ent]))
+        val = ent[-1][1]
+        for delta, r, _ in reversed(ent[:-1]):
+            c = z3.And(delta) if len(delta) > 1 else (delta[0] if delta else z3.BoolVal(True))
+            val = self.merge_values(st, c, r, val)
+        return val
 
     def opaque_spec_app(self, qual, args, kwargs, st):
         """spec function kept opaque (not unfolded): an uninterpreted function of its arguments"""
@@ -1324,7 +1576,7 @@ class Interp:
                 env[n] = ('__default__', a.defaults[di])
         return env
 
-    def call_function(self, f, args, kwargs, st, node):
+    def call_function(self, f, args, kwargs, st, node, _nomerge=False):
         qual = f.name
         if f.module is not None and f.module.name == 'specs.prim':
             from . import prims as P
@@ -1336,6 +1588,11 @@ class Interp:
         if self.policy(qual) == 'contract' and f.kind != 'spec':
             yield from self.call_by_contract(node, qual, args, kwargs, st)
             return
+        if f.kind == 'spec' and not kwargs and self.merge_specs and not _nomerge:
+            mv = self.spec_call_merged(f, args, st, node)
+            if mv is not None:
+                yield st, mv
+                return
         if st.depth > 40:
             raise EngineLimit('call depth (recursion without contract?) at %s' % qual)
         if f.kind != 'spec':
@@ -1585,6 +1842,10 @@ class Interp:
 
     def unpack_gen(self, st, v, n, node):
         """yields (st, list of n values | Raise)"""
+        if isinstance(v, SIte):
+            for st1, v1 in self.force(st, v):
+                yield from self.unpack_gen(st1, v1, n, node)
+            return
         if isinstance(v, STuple):
             items = v.items
         elif isinstance(v, Ref) and isinstance(st.heap[v.addr], HList):
@@ -1787,13 +2048,103 @@ class Interp:
                 return
         raise EngineLimit('del on %r' % (base,))
 
+    MERGEABLE = (ast.Assign, ast.AugAssign, ast.Expr, ast.Pass, ast.If)
+
+    def _mergeable_block(self, stmts):
+        for n in stmts:
+            if not isinstance(n, self.MERGEABLE):
+                return False
+            if isinstance(n, ast.If) and not (self._mergeable_block(n.body) and self._mergeable_block(n.orelse)):
+                return False
+            for x in ast.walk(n):
+                if isinstance(x, (ast.Yield, ast.YieldFrom, ast.Lambda)):
+                    return False
+        return True
+
     def ex_If(self, node, st):
         for st1, c in self.ev(node.test, st):
             if isinstance(c, Raise):
                 yield st1, ('raise', c.exc)
                 continue
-            for st2, b in self.branch(st1, c):
-                yield from self.ex(node.body if b else node.orelse, st2)
+            t = self.truth(st1, c)
+            if not isinstance(t, bool):
+                t = z3.simplify(t)
+            if isinstance(t, bool) or z3.is_true(t) or z3.is_false(t) or \
+                    not (self._mergeable_block(node.body) and self._mergeable_block(node.orelse)):
+                for st2, b in self.split(st1, t):
+                    yield from self.ex(node.body if b else node.orelse, st2)
+                continue
+            sa = st1.fork()
+            sa.pc.append(t)
+            sb = st1
+            sb_pc0 = list(sb.pc)
+            sb.pc.append(z3.Not(t))
+            fa, fb = self.feasible(sa.pc), self.feasible(sb.pc)
+            outs_a = list(self.ex(node.body, sa)) if fa else []
+            outs_b = list(self.ex(node.orelse, sb)) if fb else []
+            merged = None
+            if fa and fb and len(outs_a) == 1 and len(outs_b) == 1:
+                merged = self.merge_states(outs_a[0], outs_b[0], t, len(sb_pc0))
+            if merged is not None:
+                yield merged, NORMAL
+            else:
+                yield from outs_a
+                yield from outs_b
+
+    def merge_states(self, oa, ob, t, n0):
+        (sa, siga), (sb, sigb) = oa, ob
+        if siga is not NORMAL or sigb is not NORMAL:
+            return None
+        if len(sa.pc) != n0 + 1 or len(sb.pc) != n0 + 1 or sa.ndef != sb.ndef:
+            return None
+        if len(sa.frames) != len(sb.frames) or len(sa.exc_stack) != len(sb.exc_stack):
+            return None
+        if set(sa.ghost) != set(sb.ghost) or any(sa.ghost[k] is not sb.ghost[k] for k in sa.ghost):
+            return None
+        if set(sa.heap) != set(sb.heap):
+            return None
+        out = sa.fork()
+        out.pc = list(sa.pc[:n0])
+        for fa, fb, fo in zip(sa.frames, sb.frames, out.frames):
+            if set(fa) != set(fb):
+                return None
+            for k in fa:
+                x, y = fa[k], fb[k]
+                if x is y:
+                    continue
+                if x is UNBOUND or y is UNBOUND or not isinstance(x, V) or not isinstance(y, V):
+                    return None
+                fo[k] = self.merge_values(out, t, x, y)
+        for addr in sa.heap:
+            x, y = sa.heap[addr], sb.heap[addr]
+            if x is y:
+                continue
+            if type(x) != type(y):
+                return None
+            if isinstance(x, HObj):
+                if x.cls != y.cls or set(x.fields) != set(y.fields):
+                    return None
+                o = HObj(x.cls, {})
+                for k in x.fields:
+                    u, v = x.fields[k], y.fields[k]
+                    if u is UNBOUND or v is UNBOUND:
+                        if u is not v:
+                            return None
+                        o.fields[k] = u
+                    else:
+                        o.fields[k] = u if u is v else self.merge_values(out, t, u, v)
+                out.heap[addr] = o
+            elif isinstance(x, HSeq):
+                if repr(x.ety) != repr(y.ety):
+                    return None
+                out.heap[addr] = HSeq(x.e if x.e.eq(y.e) else z3.If(t, x.e, y.e), x.ety)
+            elif isinstance(x, HList):
+                if len(x.items) != len(y.items):
+                    return None
+                out.heap[addr] = HList([u if u is v else self.merge_values(out, t, u, v) for u, v in zip(x.items, y.items)])
+            else:
+                return None
+        return out
 
     def match_handler(self, h, exc, st):
         """does `except` handler h catch exc (static)"""
@@ -1917,19 +2268,31 @@ class Interp:
             if isinstance(it, Raise):
                 yield st1, ('raise', it.exc)
                 continue
-            spec = self.loop_spec(node, st1)
-            items = self.concrete_iter(st1, it) if spec is None or spec.get('unroll') else None
-            if items is None:
-                if isinstance(it, SNone) or isinstance(it, (SInt, SBool)):
-                    yield st1, ('raise', SExc('TypeError', site=stmt_text(node)))
-                    continue
-                if spec is None:
-                    # generator object / iterable object with repo __iter__ ...
-                    raise EngineLimit('for loop over symbolic iterable needs an invariant: %s' % stmt_text(node))
-                from . import loops as L
-                yield from L.for_with_invariant(self, node, spec, it, st1)
+            if isinstance(it, SIte):
+                for st9, it9 in self.force(st1, it):
+                    yield from self.ex_For_iter(node, it9, st9)
                 continue
-            yield from self.unroll_for(node, items, 0, st1)
+            yield from self.ex_For_iter(node, it, st1)
+
+    def ex_For_iter(self, node, it, st1):
+        spec = self.loop_spec(node, st1)
+        items = self.concrete_iter(st1, it) if spec is None or spec.get('unroll') else None
+        if items is None:
+            if isinstance(it, SNone) or isinstance(it, (SInt, SBool)):
+                yield st1, ('raise', SExc('TypeError', site=stmt_text(node)))
+                return
+            if spec is None:
+                if isinstance(it, Ref) and isinstance(st1.heap[it.addr], HSplit):
+                    from . import contracts_rt as C
+                    for st2, parts in C.split_force(self, st1.heap[it.addr], st1):
+                        yield from self.unroll_for(node, parts, 0, st2)
+                    return
+                # generator object / iterable object with repo __iter__ ...
+                raise EngineLimit('for loop over symbolic iterable needs an invariant: %s' % stmt_text(node))
+            from . import loops as L
+            yield from L.for_with_invariant(self, node, spec, it, st1)
+            return
+        yield from self.unroll_for(node, items, 0, st1)
 
     def unroll_for(self, node, items, i, st):
         if i == len(items):
